@@ -62,6 +62,16 @@ def run_cli(argv, cwd, env_extra=None):
 
 
 def make_scenario(rng, d):
+    """the exit status does not depend on how much is logged: any scenario may carry -v or -vv"""
+    argv, expected, hint, tags, models = _make_scenario(rng, d)
+    if rng.random() < (0.8 if "sympy-output-file-blocked" in tags else 0.35):
+        v = rng.choice(["-v", "-vv", "-vv", "--verbose"])
+        argv = argv + [v] if rng.random() < 0.5 else [v] + argv
+        tags.add("verbosity:" + v)
+    return argv, expected, hint, tags, models
+
+
+def _make_scenario(rng, d):
     """-> (argv, expected outcome or None, key hint, tags, models list for the independence check or None)"""
     os.makedirs(d, exist_ok=True)
     kind = rng.choice(["success", "success", "usage", "parse", "model", "model", "model", "argparse", "nofiles", "mixed-models",
@@ -211,6 +221,12 @@ def make_scenario(rng, d):
     if rng.random() < 0.3 and target:
         argv += ["-O", "detect_aliases=True"]
         tags.add("option:well-formed")
+    if target == "sympy" and good and rng.random() < 0.5:
+        # the generated file of one model cannot be written (a directory of that name is in the way): that model fails
+        blocked = rng.choice(good)
+        os.makedirs(os.path.join(d, "out", blocked + ".py"), exist_ok=True)
+        bad.append(blocked + "(output-file-blocked)")
+        tags.add("sympy-output-file-blocked")
     for b in bad:
         tags.add("failing-model:" + b)
     hint = "model-failures:%s:%s" % (target or "flatten", "+".join(sorted(set(bad))) or "none")
